@@ -1032,6 +1032,15 @@ fn gen_tx(t: &mut Tape, cfg: &GenCfg, p: &mut Program, k: usize) -> TxSpec {
                 // nothing yet), possibly over bytes that are a well-formed native script
                 let odd = t.draw(12) == 11;
                 let (version_k, script) = if odd { (*t.pick(&[0u8, 4]), if t.chance(2, 3) { native_script(t.draw(6) as u8) } else { script }) } else { (if t.chance(1, 6) { *t.pick(&[3u8, 2, 1]) } else { version }, script) };
+                // the attached script may be the minting policy of one of the program's tokens: the policy
+                // id is then the script's hash (blake2b-224 of language tag || script); other transactions
+                // of the program mint under that policy with or without carrying the script themselves
+                if !odd && script_param.is_none() && !p.tokens.is_empty() && (1..=3).contains(&version_k) && t.chance(1, 3) {
+                    let mut pre = vec![version_k];
+                    pre.extend_from_slice(&script);
+                    let tok = t.index(p.tokens.len());
+                    p.tokens[tok].policy = crate::txread::blake2b224(&pre);
+                }
                 tx.directives.push(Directive::PlutusWitness {
                     version: version_k,
                     script,
@@ -1337,7 +1346,8 @@ fn gen_datum(t: &mut Tape, cfg: &GenCfg, p: &mut Program, tx: &TxSpec, params: &
         }
     } else if t.chance(1, 4) {
         p.has_misc = true;
-        let shape = t.draw(5) as u8;
+        // (boundary-heavy worlds lean towards the shapes that carry a quantity)
+        let shape = if cfg.profile == Profile::Boundary { *t.pick(&[4u8, 0, 4, 2, 3, 1]) } else { t.draw(5) as u8 };
         let q = small_q(t, params, "x");
         let bytes = if t.chance(1, 2) {
             let name = format!("db{}", params.len());
@@ -1601,7 +1611,34 @@ pub fn gen_args(t: &mut Tape, p: &Program, tx: &TxSpec, chain: &SimChain, dist: 
     let mut shown = BTreeMap::new();
     let mut ref_kinds = BTreeMap::new();
     for party in &p.parties {
-        args.insert(party.name.to_lowercase(), ArgValue::Address(party.addr.clone()));
+        let mut a = party.addr.clone();
+        // type-correct addresses of kinds a template seldom meets: another network id in the header,
+        // a pointer address, a Byron (bootstrap) address - under the boundary distribution only
+        if matches!(dist, ArgDist::Boundary) && t.draw(8) == 7 {
+            a = match t.draw(4) {
+                0 => {
+                    let mut x = a.clone();
+                    x[0] = (x[0] & 0xf0) | 0x02;
+                    x
+                }
+                1 => {
+                    let mut x = vec![0x6Fu8];
+                    x.extend(std::iter::repeat(0xA7).take(28));
+                    x
+                }
+                2 => {
+                    // pointer address: header 0x40 | net, key hash, then three variable-length naturals
+                    let mut x = vec![0x40u8];
+                    x.extend(std::iter::repeat(0xA8).take(28));
+                    x.extend([0x81, 0x01, 0x02, 0x03]);
+                    x
+                }
+                // a Byron main-net address (Ae2tdPwUPEZ...), as raw bytes
+                _ => hex::decode("82d818582183581c2f5b0e1c0e0f7e1f1ca42dc1a8c4c0e5e0c9b4d4f3a0b7b8d9e0f1a2a0001a9026da5b").unwrap_or(a.clone()),
+            };
+            shown.insert(party.name.to_lowercase(), format!("0x{} (unusual address kind)", hex::encode(&a)));
+        }
+        args.insert(party.name.to_lowercase(), ArgValue::Address(a));
     }
     for (n, ty) in tx.params.iter().chain(p.env.iter()) {
         let key = n.to_lowercase();
